@@ -235,6 +235,46 @@ class Anchors(Contract):
         }
 
 
+class Resettings(Contract):
+    """The tables follow the CURRENT settings: after set_nutrition_requirements is called again with other
+    values, every table and conversion reflects the new settings only (no memory of the earlier ones)."""
+    prop = "C10"
+    file = UC
+    func = "UnitConversions.set_nutrition_requirements"
+    name = "settings_changed_between_conversions"
+
+    def inputs(self, S):
+        s1 = settings(S)
+        kd, fd, pd, pop = S.real("kcals_daily_2"), S.real("fat_daily_2"), S.real("protein_daily_2"), S.real("population_2")
+        S.assume(And(kd > 0, fd > 0, pd > 0, pop > 0))
+        conv = s1["conv"]
+        food = S.food(1, 1, 1)
+        anchor_units = ("billion kcals per month", "thousand tons per month", "thousand tons per month")
+        s2 = dict(kd=kd, fd=fd, pd=pd, pop=pop)
+        calls = [dict(func=f"UnitConversions.get_{n}_multipliers", args=[food]) for n in ("kcal", "fat", "protein")]
+        calls.append(dict(func="UnitConversions.in_units_kcals_equivalent", args=[food]))
+        calls.append(dict(func=self.func, args=[conv, kd, fd, pd, S.bool("include_fat_2"), S.bool("include_protein_2"), pop]))
+        calls += [dict(func=f"UnitConversions.get_{n}_multipliers", args=[food]) for n in ("kcal", "fat", "protein")]
+        calls.append(dict(func="UnitConversions.in_units_kcals_equivalent", args=[food]))
+        return dict(calls=calls, s1=s1, s2=s2)
+
+    def ensures(self, S, a, res):
+        r = unwrap(res)
+        out = {}
+        for tag, s, off in (("first", a["s1"], 0), ("second", a["s2"], 5)):
+            ok = []
+            for nut, d, bases in (("kcals", r[off], KBASE), ("fat", r[off + 1], FBASE), ("protein", r[off + 2], FBASE)):
+                for b in bases:
+                    for f in FORMS:
+                        ok.append(V(d[b + f]) == spec_multiplier(nut, b, s))
+            eq = V(r[off + 3])
+            ok.append(And(eq.kcals == spec_multiplier("kcals", "kcals per person per day", s),
+                          eq.fat == spec_multiplier("fat", "effective kcals per person per day", s),
+                          eq.protein == spec_multiplier("protein", "effective kcals per person per day", s)))
+            out[f"tables_follow_the_{tag}_settings"] = ok
+        return out
+
+
 def lemmas(repo, tier, seed):
     """Round trip and transitivity for ALL pairs and triples follow from conversion = ratio of positive
     meanings (the Conversion contracts) by this algebraic lemma over arbitrary positive reals."""
@@ -261,7 +301,7 @@ def lemmas(repo, tier, seed):
 
 CONTRACTS = ([Multipliers(n) for n in ("kcals", "fat", "protein")] + [Conversion(i) for i in range(18)]
              + [UnknownUnit(0, "kcals"), UnknownUnit(1, "tons"), UnknownUnit(2, "thousand tons each year")]
-             + [InUnits(form, i) for form in FORMS for i in range(6)] + [Anchors()])
+             + [InUnits(form, i) for form in FORMS for i in range(6)] + [Anchors(), Resettings()])
 EXTRA = [lemmas]
 TRUSTED = [
     "machine floats treated as mathematical reals: each identity holds exactly in R, to a few ulp in doubles",
